@@ -15,9 +15,12 @@ import PygProofs.Lemmas.DateStrLemmas
 import PygProofs.Lemmas.DateTextLemmas
 import PygProofs.Lemmas.AmbiguityLemmas
 import PygProofs.Lemmas.SqueezeLemmas
+import PygProofs.Lemmas.NpDateLemmas
+import PygProofs.Lemmas.MonthNameLemmas
+import PygProofs.Lemmas.MonthNameStrLemmas
 
 namespace Pyg.Props.C04
-open Pyg Pyg.Bump Pyg.DateParse Pyg.Gen Pyg.Greg
+open Pyg Pyg.Bump Pyg.DateParse Pyg.Gen Pyg.Greg Pyg.NpDate
 
 /-! ### month / day overflow: `dt(y, m, d)` (generated `ym`, `_ymd`) -/
 
@@ -417,6 +420,14 @@ theorem iso_text (uk : Bool) (y m d : Nat) (v : Valid y m d) (yy mm dd tm : List
   simp only [Option.map_some]
   rw [if_neg ht.nonneg, decide_plain uk y m d v hms us]
 
+/-- the ISO clause for `dt(<string>)` itself (`dtStr`): the text passes `strip` and `squeeze` unchanged -/
+theorem iso_str (uk : Bool) (y m d : Nat) (v : Valid y m d) (yy mm dd tm : List Char) (hms us : Int)
+    (hyy : IsNumeral 4 yy) (hy4 : yy.length = 4) (hmm : IsNumeral 2 mm) (hm2 : mm.length = 2) (hdd : IsNumeral 2 dd) (hd2 : dd.length = 2)
+    (vy : digitsVal yy = y) (vm : digitsVal mm = m) (vd : digitsVal dd = d) (ht : TimeText tm hms us) :
+    dtStr uk (String.ofList (yy ++ '-' :: (mm ++ '-' :: (dd ++ tm)))) = some (checkRange (mkDate y m d + hms + us)) := by
+  unfold dtStr
+  rw [String.toList_ofList, clean_iso yy mm dd tm hms us hyy hmm hdd ht]
+  exact iso_text uk y m d v yy mm dd tm hms us hyy hy4 hmm hm2 hdd hd2 vy vm vd ht
 /-- the ISO date alone, as `strftime('%Y-%m-%d')` writes it -/
 theorem iso_date_text (uk : Bool) (y m d : Nat) (v : Valid y m d) :
     dtCs uk (pad4 y ++ '-' :: (pad2 m ++ '-' :: (pad2 d ++ []))) = some (.ok (mkDate y m d)) := by
@@ -443,6 +454,79 @@ theorem iso_datetime_text (uk : Bool) (y m d h mi sec : Nat) (v : Valid y m d) (
   rw [checkRange_ok]; unfold DAYUS at hm; exact ⟨by omega, rfl⟩
 
 example : dtCs false "2000-02-29 23:59:59".toList = some (.ok (mkDate 2000 2 29 + 86399000000)) := eq_of_okView (by decide +kernel)
+
+/-! ### month-name strings (`1 Jan 2000`, `01-January-2000`, `January 1, 2000`, `Jan 1 2000`)
+
+The month names are those of dateutil's own table, lifted into the GENERATED `Gen.duMonths` (`IsMonthName m w`: `w` is, in any
+capitalisation, a name that table lists for month `m`); the scanner's reading of these shapes is the ASSUMED dateutil behaviour,
+sampled by correspondence (tags `month-name*`). -/
+
+/-- the month table the theorems below quantify over is the English one (`sept` included): a changed dateutil table breaks this -/
+theorem du_months_english : Gen.duMonths =
+    [["jan", "january"], ["feb", "february"], ["mar", "march"], ["apr", "april"], ["may", "may"], ["jun", "june"], ["jul", "july"],
+     ["aug", "august"], ["sep", "sept", "september"], ["oct", "october"], ["nov", "november"], ["dec", "december"]] := rfl
+
+/-- `dt` of EVERY month-name spelling of a calendar date — day with one or two digits, month name abbreviated or in full and in
+any capitalisation, four-digit year, optional time of day `[ T]h:m[:s[.f]]` to the microsecond — in the four shapes
+`d Mon yyyy`, `d-Mon-yyyy`, `Mon d, yyyy`, `Mon d yyyy` is that instant, in both dialects (no dialect test fires: the text does not
+match the `ambiguity` regex, see `ambiguous_iff`) -/
+theorem month_name_text (uk : Bool) (y m d : Nat) (v : Valid y m d) (w dd yy tm : List Char) (hms us : Int)
+    (hw : IsMonthName m w) (hdd : IsNumeral 2 dd) (hyy : IsNumeral 4 yy) (hy4 : yy.length = 4)
+    (vd : digitsVal dd = d) (vy : digitsVal yy = y) (ht : TimeText tm hms us) :
+    (∀ s, s = ' ' ∨ s = '-' → dtCs uk (dd ++ s :: (w ++ s :: (yy ++ tm))) = some (checkRange (mkDate y m d + hms + us)))
+    ∧ dtCs uk (w ++ ' ' :: (dd ++ ',' :: ' ' :: (yy ++ tm))) = some (checkRange (mkDate y m d + hms + us))
+    ∧ dtCs uk (w ++ ' ' :: (dd ++ ' ' :: (yy ++ tm))) = some (checkRange (mkDate y m d + hms + us)) := by
+  refine ⟨fun s hs => ?_, ?_, ?_⟩
+  · unfold dtCs
+    rw [parse_dMy_text m dd w yy tm s hms us hs hdd hw hyy hy4 ht, vy, vd]
+    simp only [Option.map_some]
+    rw [if_neg ht.nonneg, decide_plain uk y m d v hms us]
+  · unfold dtCs
+    rw [parse_Mdy_comma_text m dd w yy tm hms us hdd hw hyy hy4 ht, vy, vd]
+    simp only [Option.map_some]
+    rw [if_neg ht.nonneg, decide_plain uk y m d v hms us]
+  · unfold dtCs
+    rw [parse_Mdy_text m dd w yy tm hms us hdd hw hyy hy4 ht, vy, vd]
+    simp only [Option.map_some]
+    rw [if_neg ht.nonneg, decide_plain uk y m d v hms us]
+
+/-- the same for `dt(<string>)` itself (`dtStr`: `strip`, the blank handling, then the reading): the month-name spellings pass
+`strip` and `squeeze` unchanged -/
+theorem month_name_str (uk : Bool) (y m d : Nat) (v : Valid y m d) (w dd yy tm : List Char) (hms us : Int)
+    (hw : IsMonthName m w) (hdd : IsNumeral 2 dd) (hyy : IsNumeral 4 yy) (hy4 : yy.length = 4)
+    (vd : digitsVal dd = d) (vy : digitsVal yy = y) (ht : TimeText tm hms us) :
+    (∀ s, s = ' ' ∨ s = '-' → dtStr uk (String.ofList (dd ++ s :: (w ++ s :: (yy ++ tm)))) = some (checkRange (mkDate y m d + hms + us)))
+    ∧ dtStr uk (String.ofList (w ++ ' ' :: (dd ++ ',' :: ' ' :: (yy ++ tm)))) = some (checkRange (mkDate y m d + hms + us))
+    ∧ dtStr uk (String.ofList (w ++ ' ' :: (dd ++ ' ' :: (yy ++ tm)))) = some (checkRange (mkDate y m d + hms + us)) := by
+  have h := month_name_text uk y m d v w dd yy tm hms us hw hdd hyy hy4 vd vy ht
+  refine ⟨fun s hs => ?_, ?_, ?_⟩
+  · unfold dtStr; rw [String.toList_ofList, clean_dMy m dd w yy tm s hms us hs hdd hw hyy ht]; exact h.1 s hs
+  · unfold dtStr; rw [String.toList_ofList, clean_Mdy_comma m dd w yy tm hms us hdd hw hyy ht]; exact h.2.1
+  · unfold dtStr; rw [String.toList_ofList, clean_Mdy m dd w yy tm hms us hdd hw hyy ht]; exact h.2.2
+
+example : dtStr true "13 Sept 2000 10:30" = some (.ok (mkDate 2000 9 13 + 37800000000))
+    ∧ dtStr false "  January 1, 2000T23:59:59.999999\n" = some (.ok (mkDate 2000 1 1 + 86399999999)) :=
+  ⟨eq_of_okView (by decide +kernel), eq_of_okView (by decide +kernel)⟩
+
+/-- the date alone, as `strftime` writes it (`%d %B %Y`, `%d-%b-%Y`, `%B %d, %Y`, …): midnight of the day -/
+theorem month_name_date_text (uk : Bool) (y m d : Nat) (v : Valid y m d) (w : List Char) (hw : IsMonthName m w) :
+    dtCs uk (pad2 d ++ ' ' :: (w ++ ' ' :: (pad4 y ++ []))) = some (.ok (mkDate y m d))
+    ∧ dtCs uk (pad2 d ++ '-' :: (w ++ '-' :: (pad4 y ++ []))) = some (.ok (mkDate y m d))
+    ∧ dtCs uk (w ++ ' ' :: (pad2 d ++ ',' :: ' ' :: (pad4 y ++ []))) = some (.ok (mkDate y m d)) := by
+  have hv := v; unfold Valid at hv
+  have hb := dim_bounds y m hv.2.2.1 hv.2.2.2.1
+  have h := month_name_text uk y m d v w (pad2 d) (pad4 y) [] 0 0 hw (isNumeral_pad2 d) (isNumeral_pad4 y) rfl
+    (val_pad2 d (by omega)) (val_pad4 y (by omega)) TimeText.none
+  simp only [Int.add_zero, checkRange_mkDate y m d v] at h
+  exact ⟨h.1 ' ' (Or.inl rfl), h.1 '-' (Or.inr rfl), h.2.1⟩
+
+example : IsMonthName 9 "SePt".toList ∧ IsMonthName 1 "January".toList ∧ IsMonthName 5 "may".toList ∧ ¬ IsMonthName 1 "Janu".toList := by
+  decide +kernel
+example : dtCs true "13 Sept 2000 10:30".toList = some (.ok (mkDate 2000 9 13 + 37800000000))
+    ∧ dtCs false "JAN 01, 2000".toList = some (.ok (mkDate 2000 1 1)) ∧ dtCs false "1-feb-2000".toList = some (.ok (mkDate 2000 2 1)) :=
+  ⟨eq_of_okView (by decide +kernel), eq_of_okView (by decide +kernel), eq_of_okView (by decide +kernel)⟩
+/-- an impossible month-name date is dateutil's ParserError (a ValueError), never a rolled date -/
+example : dtCs true "31 Feb 2000".toList = some (.error .value) := eq_of_isValueError (by decide +kernel)
 
 /-! ### white space around the text is ignored (the dialect tests see the stripped text) -/
 
@@ -681,6 +765,146 @@ theorem dt2str_roundtrip_str (t : Int) (h0 : mkDate 1000 1 1 ≤ t) (h1 : t < MA
 
 -- non-vacuity: 2000-01-10T20:30:40.000050 (the docstring example of dt2str)
 example : dt2str 63083133040000050 = "2000-01-10T20:30:40.000050" ∧ mkDate 1000 1 1 ≤ 63083133040000050 ∧ (63083133040000050 : Int) < MAXUS := by
+  decide +kernel
+
+/-! ### numpy / pandas timestamps (`np2dt`, lines 257-289; PygModel/NpDate.lean)
+
+`np2dt` is `t.astype(datetime.datetime)` plus a class dispatch; the dispatch is GENERATED (`Gen.np2dt`, used through
+`np2dt_dispatch`), numpy's and pandas' conversions are hand-modelled as integer arithmetic on the datetime64 `(value, unit)` and
+sampled by correspondence (ops `np`, `np64`, `pd`, `pdns`).  `dtOfNp t u` = `dt(np.datetime64(t, u))`. -/
+
+/-- `dt(np.datetime64(t, unit))` for EVERY datetime `t` (year 1..9999, to the microsecond) and every fixed-length unit that divides
+a day — D, h, m, s, ms, us —: `t` truncated to the unit (`t - t % k`, `k` = microseconds per unit).  For D numpy hands back a
+`datetime.date`, which the generated dispatch rebuilds as a datetime at midnight; for the finer units the datetime is returned as is. -/
+theorem np2dt_roundtrip (u : NpUnit) (k : Int) (hk : u.micros = some k) (hW : u ≠ .W) (t : Int) (h0 : 0 ≤ t) (h1 : t < MAXUS) :
+    dtOfNp t u = some (.datetime (t - t % k)) := by
+  have hE := EPOCH_val
+  cases u <;> simp only [NpUnit.micros, Option.some.injEq, reduceCtorEq] at hk <;> try (exact absurd rfl hW)
+  all_goals subst hk
+  all_goals simp only [dtOfNp, dt64Of, NpUnit.micros, Option.bind_some]
+  · -- D: a date, rebuilt at midnight
+    have hm : (t - EPOCH) % 86400000000 = t % 86400000000 := by omega
+    have hi := instant_fixed t 86400000000 .D rfl (by omega) (by omega) h1
+    rw [dtNp_date _ _ hi rfl, hm, dropTime_midnight _ (by omega) (by omega) (by unfold DAYUS; omega)]
+  · have hm : (t - EPOCH) % 3600000000 = t % 3600000000 := by omega
+    have hi := instant_fixed t 3600000000 .h rfl (by omega) (by omega) h1
+    rw [dtNp_datetime _ _ hi rfl, hm]
+  · have hm : (t - EPOCH) % 60000000 = t % 60000000 := by omega
+    have hi := instant_fixed t 60000000 .m rfl (by omega) (by omega) h1
+    rw [dtNp_datetime _ _ hi rfl, hm]
+  · have hm : (t - EPOCH) % 1000000 = t % 1000000 := by omega
+    have hi := instant_fixed t 1000000 .s rfl (by omega) (by omega) h1
+    rw [dtNp_datetime _ _ hi rfl, hm]
+  · have hm : (t - EPOCH) % 1000 = t % 1000 := by omega
+    have hi := instant_fixed t 1000 .ms rfl (by omega) (by omega) h1
+    rw [dtNp_datetime _ _ hi rfl, hm]
+  · have hm : (t - EPOCH) % 1 = t % 1 := by omega
+    have hi := instant_fixed t 1 .us rfl (by omega) (by omega) h1
+    rw [dtNp_datetime _ _ hi rfl, hm]
+
+
+/-- weeks: numpy counts them from 1970-01-01 (a Thursday), so the truncation is to the last Thursday; from 0001-01-04 on (the week of
+0001-01-01 starts in year 0, which `datetime` cannot represent) -/
+theorem np2dt_roundtrip_week (t : Int) (h0 : 3 * DAYUS ≤ t) (h1 : t < MAXUS) :
+    dtOfNp t .W = some (.datetime (t - (t - EPOCH) % 604800000000)) := by
+  have hE := EPOCH_val
+  unfold DAYUS at h0
+  simp only [dtOfNp, dt64Of, NpUnit.micros, Option.bind_some]
+  have hi := instant_fixed t 604800000000 .W rfl (by omega) (by omega) h1
+  rw [dtNp_date _ _ hi rfl, dropTime_midnight _ (by omega) (by omega) (by unfold DAYUS; omega)]
+
+/-- calendar months and years (`datetime64[M]`, `[Y]`): the first day of the month / year of `t` -/
+theorem np2dt_roundtrip_month (t : Int) (h0 : 0 ≤ t) (h1 : t < MAXUS) :
+    dtOfNp t .M = some (.datetime (mkDate (ymdOf t).y (ymdOf t).m 1)) ∧ dtOfNp t .Y = some (.datetime (mkDate (ymdOf t).y 1 1)) := by
+  have v := (ymdOf_valid t h0 h1).1
+  have vv := first_of_month_valid t h0 h1
+  unfold Valid at v
+  constructor
+  · have hi : (Dt64.mk ((((ymdOf t).y : Int) - 1970) * 12 + (((ymdOf t).m : Int) - 1)) .M).instant = some (mkDate (ymdOf t).y (ymdOf t).m 1) := by
+      simp only [Dt64.instant]
+      have e1 : (1970 : Int) + ((((ymdOf t).y : Int) - 1970) * 12 + (((ymdOf t).m : Int) - 1)) / 12 = (ymdOf t).y := by omega
+      have e2 : ((((ymdOf t).y : Int) - 1970) * 12 + (((ymdOf t).m : Int) - 1)) % 12 + 1 = (ymdOf t).m := by omega
+      rw [e1, e2, if_pos (by omega)]; simp
+    simp only [dtOfNp, dt64Of, Option.bind_some]
+    rw [dtNp_date _ _ hi rfl, dropTime_mkDate _ _ _ vv.1]
+  · have hi : (Dt64.mk (((ymdOf t).y : Int) - 1970) .Y).instant = some (mkDate (ymdOf t).y 1 1) := by
+      simp only [Dt64.instant]
+      have e1 : (1970 : Int) + (((ymdOf t).y : Int) - 1970) = (ymdOf t).y := by omega
+      rw [e1, if_pos (by omega)]; simp
+    simp only [dtOfNp, dt64Of, Option.bind_some]
+    rw [dtNp_date _ _ hi rfl, dropTime_mkDate _ _ _ vv.2]
+
+/-- nanoseconds, where representable (the count fits int64): numpy hands back an int, the dispatch answers `pd.Timestamp(x)`, the
+Timestamp of that very instant — Python's `==` with `t` holds (`eqDatetime`: equal instants) -/
+theorem np2dt_roundtrip_ns (t : Int) (h : -9223372036854775808 < (t - EPOCH) * 1000 ∧ (t - EPOCH) * 1000 < 9223372036854775808) :
+    dtOfNp t .ns = some (.stamp ((t - EPOCH) * 1000)) ∧ (PyTime.stamp ((t - EPOCH) * 1000)).eqDatetime t := by
+  constructor
+  · simp only [dtOfNp, dt64Of, if_pos h, Option.bind_some]
+    exact dtNp_ns _ h
+  · simp only [PyTime.eqDatetime, PyTime.instantNs, Option.some.injEq]; omega
+
+/-- every datetime from 1677-09-22 to 2262-04-10 has a `datetime64[ns]` (the int64 range is 1677-09-21T00:12:43.145224193 ..
+2262-04-11T23:47:16.854775807) -/
+theorem ns_representable (t : Int) (h0 : mkDate 1677 9 22 ≤ t) (h1 : t < mkDate 2262 4 11) :
+    -9223372036854775808 < (t - EPOCH) * 1000 ∧ (t - EPOCH) * 1000 < 9223372036854775808 := by
+  have hE := EPOCH_val
+  have a : mkDate 1677 9 22 = 52912310400000000 := by decide +kernel
+  have b : mkDate 2262 4 11 = 71358883200000000 := by decide +kernel
+  omega
+
+/-- `dt(pd.Timestamp(t))`: a Timestamp is a datetime, `dt` returns it unchanged, it is the same instant as `t` (`==`), and `ymd` of
+it is midnight of `t`'s day — for every `t` -/
+theorem pandas_roundtrip (t : Int) :
+    dtStamp (stampOf t) = some (stampOf t) ∧ (stampOf t).eqDatetime t ∧ ymdPy (stampOf t) = some (dropTime t) := by
+  refine ⟨rfl, ?_, ?_⟩
+  · simp only [stampOf, PyTime.eqDatetime, PyTime.instantNs, Option.some.injEq]; omega
+  · simp only [stampOf, ymdPy, Option.some.injEq]; congr 1; omega
+
+/-- the clause as the property states it: for every `t` of 1900-01-01 .. 2299-12-31 (to the microsecond) `dt` of the numpy timestamp
+`np.datetime64(t, u)`, u ∈ {D, h, m, s, ms, us}, is `t` truncated to `u` — in particular `t` itself for `us`, and for `s` / `ms` / … when
+`t` has no finer part — and for `ns` (t before 2262-04-11) it is a Timestamp equal to `t` -/
+theorem numpy_timestamp (t : Int) (h0 : mkDate 1900 1 1 ≤ t) (h1 : t < mkDate 2300 1 1) :
+    dtOfNp t .us = some (.datetime t)
+    ∧ (∀ u k, u.micros = some k → u ≠ .W → t % k = 0 → dtOfNp t u = some (.datetime t))
+    ∧ (t < mkDate 2262 4 11 → ∃ x, dtOfNp t .ns = some x ∧ x.eqDatetime t) := by
+  have a : mkDate 1900 1 1 = 59926608000000000 := by decide +kernel
+  have b : mkDate 2300 1 1 = 72549388800000000 := by decide +kernel
+  have c : mkDate 1677 9 22 = 52912310400000000 := by decide +kernel
+  have hr : 0 ≤ t ∧ t < MAXUS := by unfold MAXUS; omega
+  refine ⟨?_, ?_, ?_⟩
+  · have := np2dt_roundtrip .us 1 rfl (by decide) t hr.1 hr.2
+    rw [this]; congr 2; omega
+  · intro u k hk hW hz
+    rw [np2dt_roundtrip u k hk hW t hr.1 hr.2, hz]; simp
+  · intro h2
+    have := np2dt_roundtrip_ns t (ns_representable t (by omega) h2)
+    exact ⟨_, this.1, this.2⟩
+
+/-- `ymd(np.datetime64(t, u))` for the units D … us and ns: midnight of `t`'s day (truncating to the unit never leaves the day) -/
+theorem numpy_ymd (u : NpUnit) (k : Int) (hk : u.micros = some k) (hW : u ≠ .W) (t : Int) (h0 : 0 ≤ t) (h1 : t < MAXUS) :
+    (dtOfNp t u).bind ymdPy = some (dropTime t) := by
+  rw [np2dt_roundtrip u k hk hW t h0 h1]
+  simp only [Option.bind_some, ymdPy, Option.some.injEq]
+  have hk' : 0 ≤ t - t % k ∧ t - t % k < MAXUS ∧ (t - t % k) - (t - t % k) % DAYUS = t - t % DAYUS := by
+    unfold DAYUS
+    cases u <;> simp only [NpUnit.micros, Option.some.injEq, reduceCtorEq] at hk <;> try (exact absurd rfl hW)
+    all_goals subst hk
+    all_goals omega
+  rw [dropTime_eq _ hk'.1 hk'.2.1, dropTime_eq t h0 h1, hk'.2.2]
+
+theorem numpy_ymd_ns (t : Int)
+    (h : -9223372036854775808 < (t - EPOCH) * 1000 ∧ (t - EPOCH) * 1000 < 9223372036854775808) :
+    (dtOfNp t .ns).bind ymdPy = some (dropTime t) := by
+  rw [(np2dt_roundtrip_ns t h).1]
+  simp only [Option.bind_some, ymdPy, Option.some.injEq]
+  congr 1; omega
+example : dtOfNp 63083133040000050 .ms = some (.datetime 63083133040000000) ∧ dtOfNp 63083133040000050 .D = some (.datetime 63083059200000000)
+    ∧ dtOfNp 63083133040000050 .W = some (.datetime 63082713600000000) ∧ dtOfNp 63083133040000050 .M = some (.datetime (mkDate 2000 1 1))
+    ∧ dtOfNp 63083133040000050 .ns = some (.stamp 947536240000050000) := by decide +kernel
+/-- no `datetime64[ns]` of 2299-12-31 exists (numpy wraps the count around silently): outside "where representable" -/
+example : dt64Of (mkDate 2299 12 31) .ns = none := by decide +kernel
+/-- a Timestamp between two microseconds is not equal to either datetime (outside the property: `t` is a datetime) -/
+example : dtNp ⟨947536240000050001, .ns⟩ = some (.stamp 947536240000050001) ∧ ¬ (PyTime.stamp 947536240000050001).eqDatetime 63083133040000050 := by
   decide +kernel
 
 /-! ### the Gregorian table the clauses above rest on -/
